@@ -72,6 +72,12 @@ def run(R):
             if st == 'ok':
                 one(R, B, name + '/equal-cells-as-distinct-objects', r, cf, dict(W, objects='distinct'), all_forms=False)
                 R.count('fresh_object_dags')
+            # cells constructed directly from plain / Tvm bit arrays (any length mod 8)
+            for route in ('direct_plain', 'direct_tvm'):
+                st, cd = mon.call(bridge.to_lib, r, route)
+                if st == 'ok':
+                    one(R, B, name + '/' + route, r, cd, dict(W, objects=f'Cell(...) constructed via {route}'), all_forms=False)
+                    R.count('direct_construction_dags')
             st, cp = mon.call(bridge.to_lib, r, 'boc-hashes')
             if st == 'ok':
                 one(R, B, name + '/reserialise-parsed-foreign', r, cp, dict(W, objects='parsed from a foreign encoding with stored hashes'), all_forms=False)
@@ -90,6 +96,7 @@ def run(R):
     R.floor('parse:base64:Slice.one_from_boc', 5)
     R.floor('parse:hex:Builder.one_from_boc', 5)
     R.floor('fresh_object_dags', 20)
+    R.floor('direct_construction_dags', 40)
     R.floor('reserialised_parsed_dags', 20)
 
 
